@@ -298,6 +298,30 @@ def r4(prog, rep):
     rep.check(ok and rets == [-1, 0], "R4-fill", "entropy_read fills the caller's whole buffer or fails", er.loc, "", function=er.name, construct="entropy_read")
 
 
+def r6_rdrand(prog, rep):
+    """The extra-input buffer holds what generate_seed_rdrand is asked to write: the count passed is at most the number of elements
+    of the array passed, and update() is given that array with its size."""
+    u = prog.unit(UNIT)
+    n = 0
+    for f in u.funcs:
+        if f.file != UNIT:
+            continue
+        for c in f.calls("generate_seed_rdrand"):
+            n += 1
+            a0 = c.arg(0)
+            cnt = norm(c.arg(1)) if c.arg(1) is not None else None
+            arr = None
+            k = a0
+            while k is not None and k.cls in ("ImplicitCastExpr", "CStyleCastExpr"):
+                if k.op == "ArrayToPointerDecay":
+                    arr = u.types.get(k.kid(0).ty) or {}
+                k = k.kid(0)
+            ok = arr is not None and arr.get("count") is not None and cnt is not None and cnt[0] == "c" and cnt[1] <= arr["count"]
+            rep.check(ok, "R2-constants", "generate_seed_rdrand writes no more words than its buffer has", c.where,
+                      "asked for %s words into an array of %s" % (show(cnt) if cnt else "?", arr.get("count") if arr else "?"), function=f.name, construct="rdrand-room")
+    return n
+
+
 def r5_whole(prog, rep):
     """crypto_entropy_read answers success only when it has produced every byte asked for: relational (sa/poly.py) - at each
     `return (0)` the remaining length is provably 0; each generate step is asked for between 1 and GENERATE_MAXLEN bytes and no more
@@ -364,6 +388,7 @@ def run(tier):
             continue
         r1(prog, rep)
         r2_r3(prog, rep)
+        r6_rdrand(prog, rep)
         if r5_whole(prog, rep) < 3:
             rep.defer_broken("R5: crypto_entropy_read has no success return or no generate step")
         r4(prog, rep)
